@@ -4,6 +4,7 @@ import (
 	"path/filepath"
 	"reflect"
 	"regexp"
+	"sort"
 	"strings"
 
 	"github.com/invopop/gobl/schema"
@@ -16,7 +17,16 @@ func FindType(term string) schema.ID {
 
 func findType(types map[reflect.Type]schema.ID, term string) schema.ID {
 	schema := toSchema(term)
-	for typ, id := range types {
+	// several types may answer to a short name (org and tax both have an
+	// Identity): go through them in the order of their IDs, so that the same
+	// term always finds the same type
+	typs := make([]reflect.Type, 0, len(types))
+	for typ := range types {
+		typs = append(typs, typ)
+	}
+	sort.Slice(typs, func(i, j int) bool { return types[typs[i]] < types[typs[j]] })
+	for _, typ := range typs {
+		id := types[typ]
 		if term == string(id) {
 			return id
 		}
